@@ -53,6 +53,70 @@ REAL = [
 ]
 
 
+def case_variants(name):
+    """spellings that differ from a registered name only in letter case: upper, capitalised, mixed"""
+    mixed = "".join(c.upper() if i % 2 else c.lower() for i, c in enumerate(name))
+    title = "_".join(w.capitalize() for w in name.split("_"))
+    out = []
+    for v in (name.upper(), name.capitalize(), title, mixed, name[:-1] + name[-1].upper()):
+        if v != name and v not in out:
+            out.append(v)
+    return out
+
+
+def vary_call_names(rng, e, reg, p):
+    """the expression with some call names replaced by a case variant; returns (expression, changed?)"""
+    k = e[0]
+    if k == "c":
+        ch = False
+        args = []
+        for a in e[2]:
+            a2, c2 = vary_call_names(rng, a, reg, p)
+            args.append(a2)
+            ch = ch or c2
+        name = e[1]
+        if rng.random() < p:
+            vs = [v for v in case_variants(name) if v not in reg]
+            if vs:
+                name, ch = rng.choice(vs), True
+        return ["c", name, args], ch
+    if k == "l":
+        xs = [vary_call_names(rng, a, reg, p) for a in e[1]]
+        return ["l", [x for x, _ in xs]], any(c for _, c in xs)
+    if k == "d":
+        xs = [(kk, vary_call_names(rng, a, reg, p)) for kk, a in e[1]]
+        return ["d", [[kk, x] for kk, (x, _) in xs]], any(c for _, (_, c) in xs)
+    return e, False
+
+
+def int_limit_cases():
+    """integer literals around CPython's int() limit of 4300 digits, alone and inside a list / call argument / dict"""
+    out = []
+    for n in (4299, 4300, 4301, 5000):
+        for lit in ("1" * n, "0" * n, "9" + "0" * (n - 1)):
+            want = "value" if n <= Q.MAX_INT_DIGITS else "QueryParse"
+            for t in (f"RETURN = {lit};", f"RETURN = [{lit}];", f"RETURN = [1, {lit} , 2];", f"x = {lit}; RETURN = x;",
+                      f'RETURN = {{"a": {lit}}};'):
+                out.append({"k": "run", "text": t, "ret": {}, "want": want})
+            # as a call argument: the argument count / type decide when the literal is readable
+            out.append({"k": "run", "text": f"RETURN = limit_events([], {lit});", "ret": {}, "want": want})
+            out.append({"k": "run", "text": f"RETURN = nop({lit});", "ret": {},
+                        "want": "QueryInterpret" if n <= Q.MAX_INT_DIGITS else "QueryParse"})
+    return out
+
+
+def deep_cases():
+    """bracket nesting far beyond what programs use: search-only (the depth at which CPython's recursion limit is
+    hit depends on the caller's stack, so it is not modelled)"""
+    out = []
+    for d in (200, 1000, 1200, 1500):
+        out.append("RETURN = " + "[" * d + "]" * d + ";")
+        out.append("RETURN = " + "[1, " * d + "2" + "]" * d + ";")
+        out.append("RETURN = " + '{"a": ' * d + "1" + "}" * d + ";")
+        out.append("RETURN = " + "nop(" * d + ")" * d + ";")
+    return [{"k": "run", "text": t, "ret": {}} for t in out]
+
+
 class C17(Prop):
     ID = "C17"
     MODULE = "AwProofs.Props.C17"
@@ -69,7 +133,8 @@ class C17(Prop):
     ]
     ASSUMPTIONS = [
         "ASCII input: Python's isdigit/isalpha/strip are Unicode-aware, the model is ASCII; non-ASCII text is a search-only stream (oracle on the real code, no model)",
-        "nesting depth below CPython's recursion limit (RecursionError at ~1000 nested brackets is runtime behaviour); integer literals below CPython's 4300-digit int() limit",
+        "bracket nesting depth <= 150: deeper text can exhaust CPython's recursion limit (RecursionError, depth depends on the caller's stack) - open finding interpreter-recursion-limit, searched on the real code only",
+        "CPython's int() limit of 4300 digits (sys.get_int_max_str_digits() default) is a parameter of the model (maxIntDigits): a longer integer literal is a parse error",
         "builtins do not mutate the namespace dict they are handed",
     ]
     LEVEL_TEXT = (
@@ -85,7 +150,9 @@ class C17(Prop):
         "hand-written malformed inputs; every registry entry x 0..4 arguments x argument kinds (list/str/int/dict/bool/"
         "call/undefined); blank-argument variants; random strings over the token alphabet; generated valid programs "
         "corrupted by deleting/duplicating/swapping/inserting characters; single statements compared as token trees; "
-        "non-ASCII strings on the real code only. non-trivial = text contains a bracket, quote or separator"
+        "integer literals of 4299/4300/4301/5000 digits alone and inside list/dict/call; letter-case variants "
+        "(upper/capitalised/mixed) of every registered name in calls and inside generated programs; "
+        "non-ASCII strings and texts nested 200-1500 brackets deep on the real code only. non-trivial = text contains a bracket, quote or separator"
     )
 
     def __init__(self):
@@ -116,6 +183,10 @@ class C17(Prop):
             out.append(("nonascii", {"k": "run", "text": t, "ret": {}}))
         for t, want in REAL:
             out.append(("real-builtins", {"k": "real", "text": t, "want": want}))
+        for c in int_limit_cases():
+            out.append(("int-limit", c))
+        for c in deep_cases():
+            out.append(("deep-nesting", c))
         # the same queries repeated on one store while buckets are deleted and re-created: an unknown bucket is a
         # function error every time, whatever was looked up before
         rng = ctx.rng("c17seq")
@@ -133,6 +204,29 @@ class C17(Prop):
                 else:
                     steps.append(["create", b])
             out.append(("sequence", {"k": "seq", "steps": steps}))
+        # a name that differs from a registered one only in letter case is an unknown function: QueryInterpret,
+        # whatever its arguments are (the existence test precedes their evaluation)
+        rng = ctx.rng("c17case")
+        for name in sorted(reg):
+            good = Q.gen_call(rng, 2, [], name, reg, dret, 1.0)
+            for v in case_variants(name):
+                if v in reg:
+                    continue
+                for args in ("", ",".join(Q.render_expr(a, Q.Layout(1, [""])) for a in good[2]), "[], 1", '"x"', "undefined_v", "nop(1)"):
+                    out.append(("case-variant", {"k": "run", "text": f"RETURN = {v}({args});", "ret": dret, "want": "QueryInterpret"}))
+                out.append(("case-variant", {"k": "run", "text": f"x = {name}; RETURN = {v}(x);", "ret": dret, "want": "QueryInterpret"}))
+                out.append(("case-variant", {"k": "run", "text": f"RETURN = [{Q.render_expr(good, Q.Layout(2, ['', ' ']))}, {{\"k\": {v}()}}];",
+                                             "ret": dret, "want": "QueryInterpret" if Q.ref_eval([["RETURN", good]], reg, dret)[0] != "err" else None}))
+        for _ in range(ctx.pick(1500, 40000)):
+            p = Q.gen_prog(rng, maxdepth=3, typed=0.95)
+            changed, p2 = False, []
+            for n, e in p:
+                e2, c2 = vary_call_names(rng, e, reg, 0.35)
+                p2.append([n, e2])
+                changed = changed or c2
+            if changed:
+                txt = Q.render_prog(p2, rng.randrange(1 << 30), rng.choice(Q.TABLES))
+                out.append(("case-progs", {"k": "run", "text": txt, "ret": dret}))
         # arity / type grid
         kinds4 = "LSID"
         for name in sorted(reg):
@@ -212,7 +306,7 @@ class C17(Prop):
     def impl(self, case):
         k = case["k"]
         if k == "run":
-            return Q.run_text(case["text"], case.get("ret"))
+            return Q.run_text(case["text"], case.get("ret"), kind_only=Q.bracket_depth(case["text"]) > Q.MAX_DEPTH)
         if k == "parse":
             return Q.parse_text(case["text"])
         if k == "real":
@@ -231,8 +325,8 @@ class C17(Prop):
         k = case["k"]
         if k == "registry":
             return ["q registry"]
-        if k == "seq" or k == "real" or not Q.is_ascii(case["text"]):
-            return []
+        if k == "seq" or k == "real" or not Q.is_ascii(case["text"]) or Q.bracket_depth(case["text"]) > Q.MAX_DEPTH:
+            return []  # search-only streams: real builtin bodies, non-ASCII text, nesting beyond MAX_DEPTH
         if k == "run":
             return [Q.line_run(case["text"], case.get("ret"))]
         return [Q.line_parse(case["text"])]
@@ -251,8 +345,14 @@ class C17(Prop):
 
     def same(self, case, impl_out, model_out):
         if model_out is None and case["k"] != "registry":
-            return True  # search-only stream (non-ASCII): no model
+            return True  # search-only stream (non-ASCII, deep nesting): no model
         return impl_out == model_out
+
+    def scope(self, case, out):
+        """open finding `interpreter-recursion-limit`: bracket nesting depth of the text exceeds 150"""
+        if isinstance(case, dict) and isinstance(case.get("text"), str) and Q.bracket_depth(case["text"]) > Q.MAX_DEPTH:
+            return "interpreter-recursion-limit"
+        return None
 
     # ---- the property --------------------------------------------------------------------------
     def oracle(self, case, out):
@@ -286,6 +386,10 @@ class C17(Prop):
             return None
         elif isinstance(out, list) and out and out[0] == "?":
             return f"unexpected value {out}"
+        if k == "run" and case.get("want"):
+            got = out[1] if out[0] == "err" else "value"
+            if got != case["want"]:
+                return f"{got}, expected {case['want']}"
         if k == "run":
             # text that is well-formed by the strict grammar must get exactly the outcome the
             # reference evaluation defines: a value, QueryInterpret for an unknown name or a wrong
@@ -318,8 +422,9 @@ class C17(Prop):
                 yield {**case, "steps": case["steps"][:i] + case["steps"][i + 1 :]}
             return
         if "text" in case:
+            base = {k: v for k, v in case.items() if k != "want"}  # an expectation belongs to the original text only
             for t in Q.shrink_text(case["text"]):
-                yield {**case, "text": t}
+                yield {**base, "text": t}
             if case.get("ret"):
                 yield {**case, "ret": {}}
 
